@@ -502,12 +502,15 @@ Definition check_C41 (c : case) : bool :=
     | SOk b _ => strictly_sorted [] (map fst (kept_go None l)) && bytes_eqb b (render (kept_go None l))
     | _ => true
     end
-  | CIter _ _ => true
+  | CIter ms obs =>
+    (* a well-formed tree object (the first nodes member holds the entries, whatever the other members
+       contain) must decode to exactly those entries *)
+    match iter_nodes ms with IOk ns => ires_eqb obs (IOk ns) | IErrFormat => true end
   | CNoCrash crashed => negb crashed
   end.
 
 (* 0 ok; 1 model <> implementation; 2 oracle false (decoded node differs / time altered /
-   blob not sorted, not the canonical rendering or not decoding to the inserted nodes / scheduling-dependent bytes); 3 a CLI command crashed (panic) on an incomplete snapshot / tree object *)
+   blob not sorted, not the canonical rendering or not decoding to the inserted nodes / scheduling-dependent bytes / a tree object with unknown keys not decoding to its entries); 3 a CLI command crashed (panic) on an incomplete snapshot / tree object *)
 Definition check_case (c : case) : nat :=
   if check_C41 c then
     match c with
